@@ -16,7 +16,7 @@ META = {
     "technique": "exhaustive small-scope enumeration of models x partial assignments / node subsets / connection maps, truth-table comparison",
     "text": "For every model with <=3 variables and <=2 (quick) / <=3 (thorough) terms in every container (incl. raw dicts with permuted keys and raw dicts / DictArithmetic objects whose keys repeat a label) and label scheme: subvalue with all 27 partial "
             "assignments over the domain plus off-domain numbers and a sympy symbol, subgraph with all 8 node subsets x every partial connection map of the outside variables "
-            "(absent / either domain value, and None), in function and method form, and normalize (function and method) for two target values. "
+            "(absent / either domain value, and None; also maps that name variables inside the node set, which must be ignored), in function and method form, and normalize (function and method) for two target values. "
             "Result type, table over the remaining variables, and argument immutability are checked.",
     "note": "Bounded: n<=3, dyadic coefficients. Symbolic results are compared after substituting a number (never structurally).",
 }
@@ -156,6 +156,11 @@ def check(case, st):
                                       for combo in itertools.product((None, d0, d1), repeat=len(outside))]
                     # a connection map / node set naming labels the model does not have
                     conns.append(dict({l: d1 for l in outside}, **{"label-not-in-model": d1}))
+                    if nodes:
+                        # connection maps that also name variables INSIDE `nodes` (a full current assignment): those entries are ignored
+                        conns.append({l: d1 for l in labels})
+                        conns.append({**{l: d0 for l in outside}, nodes[0]: d1})
+                        conns.append({nodes[-1]: d0})
                     for conn in conns:
                         fixed = {l: (conn or {}).get(l, 0) for l in outside}
                         Dref = {}
